@@ -149,17 +149,24 @@ static bool chunks_connected(const Cluster& c, const uint32_t* L, const Pt* P)
 static int32_t sym_fee() { return (int32_t)(nondet_u32() & ((1u << FB) - 1)) - (1 << (FB - 1)); }
 static int32_t sym_size() { return 1 + (int32_t)(nondet_u32() & ((1u << SB) - 1)); }
 
-template <int NTX>
+// DEPMASK >= 0: concrete dependency graph, bit (4*a + b) set <=> a is a direct parent of b.  DEPMASK < 0: symbolic graph, acyclic by construction
+// (an edge a -> b only if rank[a] < rank[b] for a symbolic permutation rank).
+template <int NTX, int DEPMASK, bool WITH_FEES>
 static void make_cluster(Cluster& c, DepGraph<S>& dg)
 {
     c.n = NTX;
-    uint32_t rank[MAXN];
-    for (int i = 0; i < NTX; i++) { c.fee[i] = sym_fee(); c.size[i] = sym_size(); rank[i] = (uint32_t)nondet_range(0, NTX - 1); }
-    for (int i = 0; i < NTX; i++) for (int j = i + 1; j < NTX; j++) VASSUME(rank[i] != rank[j]);
-    // acyclic by construction: an edge a -> b only if rank[a] < rank[b], with rank a symbolic permutation
-    for (int a = 0; a < NTX; a++) for (int b = 0; b < NTX; b++) { const bool want = nondet_bool() != 0; c.e[a][b] = want && rank[a] < rank[b]; }
+    for (int i = 0; i < NTX; i++) { c.fee[i] = WITH_FEES ? sym_fee() : 0; c.size[i] = WITH_FEES ? sym_size() : 1; }
+    if (DEPMASK >= 0) {
+        for (int a = 0; a < NTX; a++) for (int b = 0; b < NTX; b++) c.e[a][b] = ((DEPMASK >> (4 * a + b)) & 1) != 0;
+    } else {
+        uint32_t rank[MAXN];
+        for (int i = 0; i < NTX; i++) rank[i] = (uint32_t)nondet_range(0, NTX - 1);
+        for (int i = 0; i < NTX; i++) for (int j = i + 1; j < NTX; j++) VASSUME(rank[i] != rank[j]);
+        for (int a = 0; a < NTX; a++) for (int b = 0; b < NTX; b++) { const bool want = nondet_bool() != 0; c.e[a][b] = want && rank[a] < rank[b]; }
+    }
     for (int a = 0; a < NTX; a++) for (int b = 0; b < NTX; b++) c.anc[a][b] = c.e[a][b];
     for (int k = 0; k < NTX; k++) for (int a = 0; a < NTX; a++) for (int b = 0; b < NTX; b++) if (c.anc[a][k] && c.anc[k][b]) c.anc[a][b] = true;
+    for (int a = 0; a < NTX; a++) VASSERT(!c.anc[a][a], "harness: dependency graph is acyclic");
     for (int i = 0; i < NTX; i++) { const DepGraphIndex idx = dg.AddTransaction(FeeFrac{c.fee[i], c.size[i]}); VASSERT(idx == (DepGraphIndex)i, "AddTransaction hands out consecutive positions"); }
     for (int b = 0; b < NTX; b++) {
         S parents;
@@ -173,17 +180,17 @@ static void sym_perm(const Cluster& c, uint32_t* L)
     VASSUME(is_perm(c, L));
 }
 
-// MODE 0: DepGraph closure + ChunkLinearization / ChunkLinearizationInfo against the hull oracle (any permutation)
+// MODE 0: ChunkLinearization / ChunkLinearizationInfo against the hull oracle (any permutation)      MODE 5: DepGraph closure / reduction against Warshall
 // MODE 1: PostLinearize of a topological linearization
 // MODE 2: Linearize improving a topological linearization     MODE 3: Linearize from scratch     MODE 4: Linearize from a non-topological order
-template <int MODE, int NTX, int REAL>
+template <int MODE, int NTX, int REAL, int DEPMASK>
 static void run()
 {
     Cluster c; DepGraph<S> dg;
-    make_cluster<NTX>(c, dg);
+    make_cluster<NTX, DEPMASK, MODE != 5>(c, dg);
     uint32_t in[MAXN], out[MAXN], comp[MAXN];
     Pt Pin[MAXN + 1], Pout[MAXN + 1], Pcomp[MAXN + 1];
-    if (MODE == 0) {
+    if (MODE == 5) {
         bool closure_ok = true;
         for (int a = 0; a < NTX; a++) for (int b = 0; b < NTX; b++) {
             const bool want = (a == b) || c.anc[a][b];
@@ -191,6 +198,23 @@ static void run()
         }
         VASSERT(closure_ok, "DepGraph ancestors/descendants are the reflexive-transitive closure of the added dependencies");
         VASSERT(dg.IsAcyclic(), "DepGraph built from an acyclic edge set is acyclic");
+        bool red_ok = true;
+        for (int b = 0; b < NTX; b++) {
+            const S red = dg.GetReducedParents(b);
+            for (int a = 0; a < NTX; a++) {
+                // a is a reduced parent of b iff a is an ancestor of b and no other ancestor of b has a as ancestor
+                bool want = c.anc[a][b];
+                for (int m = 0; m < NTX; m++) if (c.anc[a][m] && c.anc[m][b]) want = false;
+                if (red[a] != want) red_ok = false;
+            }
+        }
+        VASSERT(red_ok, "GetReducedParents = ancestors that are not ancestors of another ancestor (transitive reduction)");
+        verif_observe(dg.Ancestors(NTX - 1).Count());
+        if (NTX >= 2) VWITNESS(dg.Ancestors(NTX - 1).Count() == (unsigned)NTX, "last transaction depends on all others");
+        VREACH("end");
+        return;
+    }
+    if (MODE == 0) {
         sym_perm(c, in);
         prefix_points(c, in, Pin);
         const std::vector<FeeFrac> chunks = ChunkLinearization(dg, std::span<const DepGraphIndex>(in, NTX));
